@@ -28,5 +28,7 @@ for meta in sorted(glob.glob('/verif/seeded/C*/*/meta.json')):
     conf = '-'
     if f2: conf = 'yes' if (f2[0]=='0' and f2[1]=='0' and f2[2]!='0') else 'tests=%s clean=%s changed=%s' % f2[:3]
     n += 1; caught += 1 if (f2 and f2[3]=='1') else 0
-    print(f"| {key}{ind} | {what} - {need} | {conf} | {show(f1)} | {show(f2)} |")
+    last = show(f2)
+    if m.get('status_note'): last += ' - ' + m['status_note']
+    print(f"| {key}{ind} | {what} - {need} | {conf} | {show(f1)} | {last} |")
 print(f"\n{caught} of {n} seeded changes are caught by the committed quick tier.")
